@@ -1857,3 +1857,140 @@ Proof.
     - left. left. unfold has_res. rewrite Er. discriminate. }
   destruct Hof as [Hr|Hn]; [exact Hr|]. exfalso. apply Hn. exists q. auto.
 Qed.
+
+(** * Part 7: witnesses *)
+Definition running_carrier_b (s : list pod) (g : group) : bool :=
+  existsb (fun p => negb (p_res p) && phase_eqb (p_phase p) Running && carries_b g p) s.
+Definition live_carrier_b (s : list pod) (g : group) : bool :=
+  existsb (fun p => negb (p_res p) && live_phase (p_phase p) && carries_b g p) s.
+Definition has_res_b (s : list pod) (g : group) : bool :=
+  match res_of g s with [] => false | _ => true end.
+
+Lemma phase_eqb_true a b : phase_eqb a b = true -> a = b.
+Proof. destruct a, b; cbn; intros; congruence. Qed.
+Lemma running_carrier_b_true s g : running_carrier_b s g = true -> running_carrier s g.
+Proof.
+  unfold running_carrier_b. rewrite existsb_exists. intros [p [Hp H]].
+  apply andb_true_iff in H. destruct H as [H H3]. apply andb_true_iff in H. destruct H as [H1 H2].
+  exists p. split; [exact Hp|]. split; [apply negb_true_iff; exact H1|].
+  split; [apply phase_eqb_true; exact H2|apply carries_b_true; exact H3].
+Qed.
+Lemma live_carrier_b_true s g : live_carrier_b s g = true -> live_carrier s g.
+Proof.
+  unfold live_carrier_b. rewrite existsb_exists. intros [p [Hp H]].
+  apply andb_true_iff in H. destruct H as [H H3]. apply andb_true_iff in H. destruct H as [H1 H2].
+  exists p. split; [exact Hp|]. split; [apply negb_true_iff; exact H1|].
+  split; [exact H2|apply carries_b_true; exact H3].
+Qed.
+Lemma live_carrier_b_false s g : live_carrier_b s g = false -> ~ live_carrier s g.
+Proof.
+  intros H [p [Hp [Hr [Hl Hc]]]]. assert (E : live_carrier_b s g = true); [|congruence].
+  unfold live_carrier_b. apply existsb_exists. exists p. split; [exact Hp|].
+  rewrite Hr. cbn. unfold live in Hl. rewrite Hl. cbn. apply carries_b_true. exact Hc.
+Qed.
+Lemma has_res_b_false s g : has_res_b s g = false -> ~ has_res s g.
+Proof. unfold has_res_b, has_res. destruct (res_of g s); [auto|discriminate]. Qed.
+Lemma has_res_b_true s g : has_res_b s g = true -> has_res s g.
+Proof. unfold has_res_b, has_res. destruct (res_of g s); [discriminate|intros _; discriminate]. Qed.
+
+(** F3: a multi-fraction consumer (labels runai-gpu-group/<g> only) is bound
+    into g1 and g2 and runs; somebody deletes g1's reservation pod; the binder
+    restarts.  Sync lists the pods with the plain label -- g2's reservation pod --
+    and never visits g1. *)
+Definition f3_pods : list (pid * mfkind) := [(1%positive, MfYes)].
+Definition f3_history : list step :=
+  [ mkStep (EvBind 1%positive 1%positive [1%positive; 2%positive] true) no_faults [] [Some 1%positive; Some 2%positive];
+    quiet (EvPhase 1%positive Running);
+    quiet (EvResGone 1%positive) ].
+
+Lemma f3_orphan_survives :
+  exists w', exec_world (quiet_step EvRestart [] []) (exec f3_history (init_state f3_pods)) = (Ok tt, w')
+             /\ ~ no_running_orphan (w_store w').
+Proof.
+  exists (snd (exec_world (quiet_step EvRestart [] []) (exec f3_history (init_state f3_pods)))).
+  split; [vm_compute; reflexivity|].
+  intros H. specialize (H 1%positive).
+  refine (has_res_b_false _ 1%positive _ (H _)).
+  - vm_compute. reflexivity.
+  - apply running_carrier_b_true. vm_compute. reflexivity.
+Qed.
+Lemma f3_not_visible : ~ orphans_visible (ps_store (exec f3_history (init_state f3_pods))).
+Proof.
+  intros H.
+  set (s := ps_store (exec f3_history (init_state f3_pods))) in *.
+  assert (Hp : exists p, In p s /\ p_res p = false /\ p_phase p = Running /\ carries p 1%positive /\ p_plain p = None).
+  { exists (mkPod 1%positive false (Some 1%positive) None [1%positive; 2%positive] Running None MfYes
+                  [(1%positive, 1%positive); (2%positive, 2%positive)]).
+    split; [vm_compute; left; reflexivity|]. repeat split. right. left. reflexivity. }
+  destruct Hp as [p [H1 [H2 [H3 [H4 H5]]]]].
+  refine (H p 1%positive H1 H2 H3 H4 _ H5).
+  apply has_res_b_false. vm_compute. reflexivity.
+Qed.
+
+(** the same history with a single-fraction consumer: the running pod is deleted *)
+Definition f3s_pods : list (pid * mfkind) := [(1%positive, MfNo)].
+Definition f3s_history : list step :=
+  [ mkStep (EvBind 1%positive 1%positive [1%positive] true) no_faults [] [Some 1%positive];
+    quiet (EvPhase 1%positive Running);
+    quiet (EvResGone 1%positive) ].
+Lemma f3s_single_fraction_deleted :
+  w_store (snd (exec_world (quiet_step EvRestart [] []) (exec f3s_history (init_state f3s_pods)))) = [].
+Proof. vm_compute. reflexivity. Qed.
+
+(** why the "iff" needs tamper-free histories even for single-fraction pods: a
+    bound pod that is still Pending keeps its label when the reservation pod is
+    deleted from outside (only RUNNING pods are deleted by the sync) *)
+Definition tp_history : list step :=
+  [ mkStep (EvBind 1%positive 1%positive [1%positive] true) no_faults [] [Some 1%positive];
+    quiet (EvResGone 1%positive) ].
+Lemma tampered_pending_keeps_label :
+  exists w', exec_world (quiet_step EvRestart [] []) (exec tp_history (init_state f3s_pods)) = (Ok tt, w')
+             /\ ~ exact_for (w_store w') 1%positive.
+Proof.
+  exists (snd (exec_world (quiet_step EvRestart [] []) (exec tp_history (init_state f3s_pods)))).
+  split; [vm_compute; reflexivity|].
+  intros [_ H]. refine (has_res_b_false _ 1%positive _ (H _)).
+  - vm_compute. reflexivity.
+  - apply live_carrier_b_true. vm_compute. reflexivity.
+Qed.
+
+(** non-vacuity: a tamper-free history with a crash between creating a
+    reservation pod and labelling the consumer, a failed label patch, a
+    multi-fraction and a single-fraction consumer sharing a group; it reaches
+    a state with two reservation pods and two bound consumers holding indices,
+    and the completion of the multi-fraction consumer frees exactly g2 *)
+Definition nv_pods : list (pid * mfkind) := [(1%positive, MfYes); (2%positive, MfNo)].
+Definition nv_history : list step :=
+  [ mkStep (EvBind 2%positive 1%positive [1%positive] true) (mkF [] (Some 5)) [] [Some 3%positive];
+    quiet EvRestart;
+    mkStep (EvBind 2%positive 1%positive [1%positive] true) (mkF [5] None) [] [Some 3%positive];
+    mkStep (EvBind 2%positive 1%positive [1%positive] true) no_faults [] [Some 3%positive];
+    mkStep (EvBind 1%positive 1%positive [1%positive; 2%positive] true) no_faults [[1%positive]] [Some 4%positive];
+    quiet (EvPhase 1%positive Running);
+    quiet (EvPhase 2%positive Running) ].
+
+Lemma nv_tamper_free : tamper_free nv_history.
+Proof. repeat constructor. Qed.
+
+Lemma nv_reaches :
+  let s := ps_store (exec nv_history (init_state nv_pods)) in
+  length (filter p_res s) = 2
+  /\ (exists p i, In p s /\ p_res p = false /\ live p /\ p_node p <> None /\ carries p 2%positive
+                  /\ In (2%positive, i) (p_given p))
+  /\ length (res_of 1%positive s) = 1 /\ length (res_of 2%positive s) = 1
+  /\ ps_next (exec nv_history (init_state nv_pods)) = 5%positive.
+Proof.
+  cbv zeta. split; [vm_compute; reflexivity|]. split.
+  - exists (mkPod 1%positive false (Some 1%positive) None [1%positive; 2%positive] Running None MfYes
+                  [(1%positive, 3%positive); (2%positive, 4%positive)]), 4%positive.
+    split; [vm_compute; left; reflexivity|]. split; [reflexivity|]. split; [reflexivity|].
+    split; [discriminate|]. split; [right; right; left; reflexivity|right; left; reflexivity].
+  - vm_compute. repeat split.
+Qed.
+
+Lemma nv_completion_frees_g2 :
+  let w := snd (exec_world (quiet_step (EvPhase 1%positive Succeeded) [[1%positive; 2%positive]] [])
+                           (exec nv_history (init_state nv_pods))) in
+  has_res_b (w_store w) 1%positive = true /\ has_res_b (w_store w) 2%positive = false
+  /\ live_carrier_b (w_store w) 1%positive = true /\ live_carrier_b (w_store w) 2%positive = false.
+Proof. vm_compute. repeat split. Qed.
